@@ -31,14 +31,21 @@ TEXTS = {
              "endless script can return nothing else; nothing is reported interrupted while the context lives; after Exec returns "
              "the watcher has ended or its exit is enabled (no goroutine waits for something that may never come); the timeout is "
              "routed by step/walk of every specification exactly like a throw. The variants without cancel(), watching only the "
-             "caller's context, without watcher, without Interrupt are each refuted. Every check runs 14 script shapes under "
+             "caller's context, without watcher, without Interrupt are each refuted. Since the repair of D50/D51/D53 the export of "
+             "the result and the text of a thrown value - interpreted code too: getters, toString - form a second phase before "
+             "cancel() and under the trap: Model/ConcJsExport.v extends the system conservatively (C11_export_conservative) and "
+             "proves the same guarantees for both phases (C11_export_phase_interrupted, _result, _no_crash, _no_leak, ...), and "
+             "that the earlier order (post phase after cancel(), outside the trap) never interrupts the post phase and panics on "
+             "the stale flag (C11_export_after_cancel_refuted, C11_export_after_cancel_panics). Every check runs 16 script shapes under "
              "expired/1/5/20/100/300 ms/never-ending contexts (deadline and explicit cancel), 1-64 at once, classifies every result, "
              "measures return within deadline + 3 s and runtime.NumGoroutine before/after, and walks specifications with looping "
              "actions/guards against their throwing twins and the model.",
         note=JS_NOTE + "Partial (named): wall-clock promptness, goja's checking of the flag at every interpreted instruction and a single "
              "long built-in call are outside the model: promptness is measured with generous slack, not proved. Timers: Exec starts "
              "none itself (the caller's context owns its timer); only goroutines are counted. True unbounded recursion is exercised "
-             "with deadlines <= 20 ms only (memory)."),
+             "with deadlines <= 20 ms only (memory). A third level of interpreted code (the toString of an object thrown BY a getter or "
+             "toString, run by fmt inside the trap) is interrupted in time but reported as an ordinary error whose text mentions the "
+             "timeout, not as Interrupted: noted, not modelled."),
     "C12": dict(
         text="Model/Specter.v cuts Spec.Walk's loop (the same walk_loop C04-C08 are about; C12_small_step_is_walk) into atomic "
              "steps. Proved for ALL schedules and any number of walkers: threads whose steps hand the shared state back unchanged "
